@@ -112,6 +112,18 @@ J gen_tunnel(uint64_t seed, const J &ov)
 	if (ov.has("raw")) for (auto &c : cl.a) c.set("raw", ov.getb("raw"));
 	if (ov.has("fragsize")) for (auto &c : cl.a) c.set("fragsize", (int)ov.geti("fragsize"));
 	if (mode == "redeliver") for (auto &c : cl.a) c.set("raw", false);
+	if (mode == "clean9") for (auto &c : cl.a) {
+		// C09: every answer format, fragment sizes up to what one answer can carry (and autoprobe, whose probes sweep lengths)
+		static const char *ty[] = {"TXT", "TXT", "SRV", "MX", "CNAME", "A", "NULL", "PRIVATE"};
+		std::string qt = ty[r.range(0, 7)];
+		c.set("qtype", qt); c.set("raw", false);
+		std::string enc = ENCS[r.range(0, 4)];
+		if (enc == "raw" && qt != "TXT" && qt != "NULL" && qt != "PRIVATE") enc = "base128";
+		c.set("downenc", r.chance(0.15) ? "" : enc);
+		int cap = fragsize_capacity(qt, c.gets("downenc"));
+		if (r.chance(0.35)) c.set("fragsize", 0);
+		else c.set("fragsize", (int)(r.chance(0.5) ? r.range(std::max(2, cap - 40), cap) : r.range(20, cap)));
+	}
 	if (mode == "names") for (auto &c : cl.a) {
 		c.set("raw", false); c.set("maxlen", names_L);
 		if (r.chance(0.7)) c.set("qtype", "NULL");
@@ -127,7 +139,8 @@ J gen_tunnel(uint64_t seed, const J &ov)
 	cfg.set("clients", cl);
 
 	uint64_t ser = seed % 1000 * 100000;
-	if (mode == "clean") {
+	if (mode == "clean" || mode == "clean9") {
+		if (mode == "clean9" && r.chance(0.5)) { J rl = J::obj(); rl.set("ref_reencode", true); cfg.set("relay", rl); }
 		double W = 10 + r.uniform() * 25;
 		int maxlen = r.chance(0.8) ? 1200 : 4000;
 		gen_traffic(r, ops, "c0", r.chance(0.5) ? "srv" : "ext", (int)r.range(20, 45), 0.1, W, ser, maxlen, true);
@@ -267,6 +280,7 @@ World *build_tunnel(const J &plan)
 	w->add(mk_c01_integrity(w));
 	if (mode == "redeliver") { w->add(mk_c02_delivery(w, true, false, "C16")); w->add(mk_c16_redeliver(w)); }
 	else if (mode == "relayfam") w->add(mk_c02_delivery(w, true, false, "C11"));
+	else if (mode == "clean9") w->add(mk_c02_delivery(w, true, false, "C09"));
 	else if (mode == "names") { w->add(mk_c02_delivery(w, true, false, "C02")); w->add(mk_c08_names(w)); }
 	else w->add(mk_c02_delivery(w, mode == "clean", mode == "recover"));
 	w->add(mk_c15_fragsize(w));
@@ -310,7 +324,7 @@ World *build_tunnel(const J &plan)
 		std::string mode = ww->cfg.gets("mode");
 		bool nt = ww->all_in_tunnel && wr > 0;
 		if (mode == "faulty") nt = nt && fault;
-		if (mode == "clean") nt = nt && ww->probes["c02.acc_c"] >= 5 && ww->probes["c02.acc_s"] >= 5;
+		if (mode == "clean" || mode == "clean9") nt = nt && ww->probes["c02.acc_c"] >= 5 && ww->probes["c02.acc_s"] >= 5;
 		if (mode == "recover") nt = nt && fault;
 		if (mode == "redeliver") nt = nt && ww->probes["c16.redelivered"] >= 1;
 		if (mode == "names") nt = ww->all_in_tunnel && ww->probes["c08.full_chunks"] >= 1 && ww->probes["c08.tail_chunks"] >= 1;
